@@ -4,6 +4,7 @@ import (
 	"errors"
 	"fmt"
 	"io"
+	"math"
 	"reflect"
 )
 
@@ -58,8 +59,8 @@ func (a Ary[LEN]) ReadFrom(r io.Reader) (n int64, err error) {
 	} else {
 		n += nn
 	}
-	if Len < 0 {
-		return n, errors.New("array length less than zero")
+	if Len < 0 || int64(Len) > math.MaxInt {
+		return n, errors.New("array length out of range")
 	}
 
 	array := reflect.ValueOf(a.Ary)
